@@ -1,5 +1,7 @@
 import GB.Base.Proto
 import GB.C08.Spec
+import GB.C08.Mime
+import GB.C08.Handoff
 /-
   C08 — driver: judges one case line of the `c08` area.
 
@@ -334,6 +336,75 @@ def wsPrefix : List WSItem → List Bytes × Bool
   | .fin :: _ => ([], true)
   | _ => ([], false)
 
+def insertKey (e : Bytes × List Bytes) : List (Bytes × List Bytes) → List (Bytes × List Bytes)
+  | [] => [e]
+  | y :: ys => if lexLt y.1 e.1 then y :: insertKey e ys else e :: y :: ys
+
+/-- (key, value) pairs with keys sorted bytewise (Go's sort.Strings) and the values of a key in order -/
+def flatMD (md : GB.C07.MD) : List (Bytes × Bytes) :=
+  (md.foldl (fun acc e => insertKey e acc) []).flatMap (fun e => e.2.map (fun v => (e.1, v)))
+
+def pairsEq : List (Bytes × Bytes) → List (Bytes × Bytes) → Bool
+  | [], [] => true
+  | a :: as, b :: bs => beqB a.1 b.1 && beqB a.2 b.2 && pairsEq as bs
+  | _, _ => false
+
+def showPairs (l : List (Bytes × Bytes)) : String :=
+  if l.isEmpty then "-" else ",".intercalate (l.map (fun p => toHex p.1 ++ ":" ++ toHex p.2))
+
+/-! trace validation of the hand-off LTS: the observable sequence of a session (client messages, the results of the
+    Recv calls in order, ServeHTTP returned) is replayed through `Handoff.step` under a canonical schedule — the pump
+    calls Recv `want` times, the read loop runs only as far as needed, then close(done), the read loop drains and exits.
+    Every label must be enabled; the final state must show the observed results. -/
+namespace HandoffReplay
+open GB.C08.Handoff
+
+def pump (cs : Bool) : Nat → St → Nat → Option St
+  | 0, s, _ => some s
+  | fuel + 1, s, want =>
+    match s.recv with
+    | .waiting =>
+      match s.reader with
+      | .busy (.eof :: _) => (step cs s .closeEvents).bind (fun s' => pump cs fuel s' want)
+      | .busy _ => (step cs s .handoff).bind (fun s' => pump cs fuel s' want)
+      | .idle =>
+        if s.eventsClosed then (step cs s .recvClosed).bind (fun s' => pump cs fuel s' want)
+        else if s.pending.isEmpty then some s          -- the pump blocks: nothing more will come
+        else (step cs s .read).bind (fun s' => pump cs fuel s' want)
+      | .exited => some s
+    | .idle => if want = 0 then some s else (step cs s .recvCall).bind (fun s' => pump cs fuel s' (want - 1))
+    | .stopped => some s
+
+def drain (cs : Bool) : Nat → St → Option St
+  | 0, s => some s
+  | fuel + 1, s =>
+    match s.reader with
+    | .busy (.eof :: _) => (step cs s .closeEvents).bind (drain cs fuel)
+    | .busy _ => (step cs s .onDone).bind (drain cs fuel)
+    | .idle => if s.pending.isEmpty then step cs s .readerExit else (step cs s .read).bind (drain cs fuel)
+    | .exited => some s
+
+def toRes : WSEv → Option RecvRes
+  | .msg m => some (.msg m)
+  | .err e => some (.err e)
+  | .eof => some .eof
+  | _ => none
+
+/-- replay; `some results` if every step was enabled and the read loop exited without a panic -/
+def replay (cs : Bool) (msgs : List Bytes) (want : Nat) : Option (List RecvRes) :=
+  let s0 := msgs.foldl (fun s d => (s.bind (fun s => step cs s (.clientSend d)))) (some init)
+  let fuel := 4 * msgs.length + 2 * want + 8
+  match s0.bind (fun s => pump cs fuel s want) with
+  | none => none
+  | some s1 =>
+    -- a pump still inside Recv when Forward ends is impossible in these sessions (Forward returned): it is not waiting
+    let s1' := if s1.recv = .waiting then none else some s1
+    match (s1'.bind (fun s => step cs s .closeDone)).bind (drain cs fuel) with
+    | some s2 => if s2.reader = .exited && !s2.panicked && s2.pending.isEmpty then some (s2.results.filterMap toRes) else none
+    | none => none
+
+end HandoffReplay
+
 def handleWS (i o : List String) : String :=
   match kv? "k" i, kv? "rt" i, kv? "hd" i, (kv? "ms" i).bind (parseList parseWSItem),
         (kv? "rs" i).bind (parseList parseCB), (kv? "tm" i).bind (parseList parseKV), kv? "ea" i with
@@ -341,6 +412,9 @@ def handleWS (i o : List String) : String :=
     if o.head? == some "HANG" then s!"VIOL the call never ends ({o.getD 1 ""})" else
     if o.head? == some "PANIC" then "VIOL panic" else
     if (kv? "hs" o).getD "returned" != "returned" then "VIOL handler=stuck: ServeHTTP did not return after the close frame" else
+    -- sp=mute: a client that never answers the close frame must not hold the handler beyond the close timeout
+    if (kv? "sp" i) == some "mute" && ((kv? "bound" o) != some "ok" || (kv? "tcp" o) != some "closed") then
+      s!"VIOL close handshake not bounded (bound={(kv? "bound" o).getD "?"} tcp={(kv? "tcp" o).getD "?"})" else
     match (kv? "up" o).bind String.toNat?, (kv? "ws" o).bind (parseList parseCB), kv? "cl" o,
           (kv? "rv" o).bind (parseList parseORes), (kv? "tg" o).bind (parseList parseCB),
           kv? "te" o, (kv? "sd" o).bind (parseList parseCB), kv? "oc" o, (kv? "tr" o).bind (parseList parseKV) with
@@ -348,11 +422,14 @@ def handleWS (i o : List String) : String :=
       let cs : Bool := k == "cs" || k == "bd"
       let ss : Bool := k == "ss" || k == "bd"
       let early : Bool := ea != "-"
-      let stalled : Bool := (kv? "sp" i).isSome
+      let stalled : Bool := (kv? "sp" i).isSome && (kv? "sp" i) != some "mute"
       let early : Bool := early || stalled
       let sf := ((kv? "sf" o).bind String.toNat?).getD 0
-      let hdOK : Bool := hd.startsWith "ok:"
-      let hdBytes := match parseCB ((hd.drop 3).toString) with | some b => b | none => []
+      -- `hd=<tag>:<cb>`: the tag (ok/bad/h) is a comment of the generator; whether the header message parses is
+      -- decided by the model of readMD / textproto.ReadMIMEHeader
+      let hdBytes := match hd.splitOn ":" with | [_, b] => (match parseCB b with | some x => x | none => []) | _ => []
+      let hdPairs := readMIME hdBytes
+      let hdOK : Bool := hdPairs.isSome
       if up ≠ 101 then s!"VIOL websocket upgrade status {up}" else
       match decodeWS wsm with
       | none => "VIOL websocket response is not [header] data* followed by exactly one trailer message"
@@ -372,11 +449,27 @@ def handleWS (i o : List String) : String :=
         match judgeResp msgs block sd sf rs ss oc om with
         | some v => v
         | none =>
-          let spOK : Bool := !stalled || ((kv? "blk" o) == some "yes" && (kv? "fwd" o) == some "returned")
+          let spOK : Bool := !stalled || ((kv? "fwd" o) == some "returned" &&
+            ((kv? "sp" i) != some "stall" || (kv? "blk" o) == some "yes"))
           if !spOK then "DIFF model=stalled-send scenario not established" else
-          let evs := wsEvents (fun _ => hdOK) {} (hdBytes :: items.map WSItem.enc)
+          let evs := wsEvents mdOkReal {} (hdBytes :: items.map WSItem.enc)
+          -- the metadata Forward saw = FromIncomingContext(MD(mimeHeader)) of the parsed lines, keys sorted, values in order
+          let mdModel := flatMD (forwardMD (hdPairs.getD []))
+          let mdOK : Bool := match kv? "md" o with
+            | some obs => if routed then (match parseList parseKV obs with | some l => pairsEq l mdModel | none => false) else obs == "none"
+            | none => false
+          if !mdOK then s!"DIFF model=md:{showPairs mdModel}" else
           let mrv := wsRecvTrace rv.length evs
-          let rvOK : Bool := (early && !stalled) || oresListEq rv mrv
+          -- hand-off LTS replay (sessions whose pump ended by itself: not cut short by an early answer / context end)
+          let ltsOK : Bool := early || !routed ||
+            (match rv.getLast? with
+             | some (.msg _) => true        -- unary request: the pump never saw the end; covered by the sequential check
+             | none => true
+             | _ => match HandoffReplay.replay cs (items.map WSItem.enc) rv.length with
+                    | some res => oresListEq rv res
+                    | none => false)
+          if !ltsOK then "DIFF model=handoff-lts" else
+          let rvOK : Bool := (early && !stalled) || (ea != "-" && (kv? "sp" i) == some "flood") || oresListEq rv mrv
           let md := match parseTrailer block with | some m => m | none => []
           let hmd := match hdr with | some h => (match parseTrailer h with | some m => m | none => [([0], [])]) | none => []
           let respOK : Bool := beqBs wsm (wsRespondWith hmd msgs md) && (hdr.isSome == !msgs.isEmpty) && hmd.isEmpty &&
@@ -391,6 +484,7 @@ def handleWS (i o : List String) : String :=
           else
             let big : Bool := items.any (fun it => (WSItem.enc it).length ≥ 65536) || rs.any (fun m => m.length ≥ 65536)
             let br := if !hdOK then "bad-header" else if rt ≠ "ok" then "route-fail"
+              else if (kv? "sp" i) == some "flood" then "flood-at-close"
               else if stalled then "stalled-send"
               else match rv.getLast? with
                 | some (.err _) => "recv-error"
@@ -431,6 +525,12 @@ def handle : Handler
           | none => "VIOL trailer block unparsable"
       | _ => "VIOL not a single trailer frame"
     | _, _, _, _ => "BAD c08 trl"
+  | "obs" :: _, o =>
+    -- observation only (per-message flushing is not promised by the property): reported in the branch histogram
+    if (kv? "hs" o).getD "returned" != "returned" then "VIOL handler=stuck" else
+    match kv? "st" o, kv? "first" o with
+    | some "200", some f => s!"OK b=obs-first-message-visible-{f}"
+    | _, _ => "BAD c08 obs"
   | "http" :: i, o => handleHTTP i o
   | "ws" :: i, o => handleWS i o
   | _, _ => "BAD c08 line"
